@@ -141,6 +141,7 @@ func isZeroValue(v ssa.Value) bool {
 // complitFields: for a value that is the load of a local composite literal
 // (alloc + field stores + load), the per-field stored values.
 func complitFields(v ssa.Value) (map[string]ssa.Value, *ssa.Alloc) {
+	v = origin(v)
 	u, ok := v.(*ssa.UnOp)
 	var a *ssa.Alloc
 	if ok && u.Op == token.MUL {
